@@ -2,6 +2,8 @@
 
 mod common;
 mod props;
+mod mux;
+mod hist;
 
 use common::*;
 
@@ -36,6 +38,7 @@ fn main() {
     let code = match args[1].as_str() {
         "check" => match args[2].as_str() {
             "C16" => props::c16::run(tier, seed),
+            "C01" => props::c01::run(tier, seed),
             _ => {
                 eprintln!("unknown property {}", args[2]);
                 2
